@@ -411,12 +411,21 @@ main (int argc, char **argv)
 	      mprotect (page + PG, PG, PROT_NONE);
 	    }
 	  cerr_capture cap;
-	  if (q.size () > PG)
-	    std::cout << "A skip\n";
-	  else
+	  {
 	    {
-	      char *buf = page + PG - q.size ();
-	      memcpy (buf, q.data (), q.size ());
+	      // up to 64 KB the query sits right before an inaccessible page; longer ones are handed over from the heap
+	      std::vector <char> big;
+	      char *buf;
+	      if (q.size () > PG)
+		{
+		  big.assign (q.begin (), q.end ());
+		  buf = big.data ();
+		}
+	      else
+		{
+		  buf = page + PG - q.size ();
+		  memcpy (buf, q.data (), q.size ());
+		}
 	      static zw_vocabulary *voc = nullptr;
 	      zw_error *err = nullptr;
 	      if (voc == nullptr)
@@ -489,6 +498,7 @@ main (int argc, char **argv)
 		  zw_query_destroy (zq);
 		}
 	    }
+	  }
 	  std::cout << "." << std::endl;
 	  continue;
 	}
